@@ -411,14 +411,16 @@ class Registry:
         for k, v in env.items():
             scope["old_" + k] = self.snap(ex, v, memo)
         mclauses, mparams = con.clauses("must_raise")
-        if mclauses:
+        partial = con.attrs.get("opaque_calls") == "mayraise" and not con.clauses("raises")[0]
+        if mclauses or partial:
             # one-directional contract: a normal return implies none of the conditions held on entry;
-            # the call may also fail for reasons the contract does not describe
+            # the call may also fail for reasons the contract does not describe (a contract whose calls are
+            # opaque and may raise, and that has no `raises` clause, speaks of normal returns only)
             conds = [simp(ex.truth(ex.ev(c, self.clause_frame(con, mparams, scope, ex)))) for exc, c in mclauses]
             if ex.choose(2) == 1:
                 for path in con.modifies:
                     self.havoc_path(ex, path, env)
-                raise PyExc(mclauses[0][0] if ex.choose(2) == 0 else "OpaqueFailure", node)
+                raise PyExc(mclauses[0][0] if mclauses and ex.choose(2) == 0 else "OpaqueFailure", node)
             for t in conds:
                 ex.assume(z3.Not(t))
         rclauses, rparams = con.clauses("raises")
@@ -644,7 +646,8 @@ class Verifier:
             except PyExc as e:
                 allowed = [t for exc, t in rconds if exc == e.cls]
                 line = getattr(e.node, "lineno", 0)
-                if mclauses or e.cls == "OpaqueFailure":
+                if mclauses or e.cls == "OpaqueFailure" or \
+                        (con.attrs.get("opaque_calls") == "mayraise" and not rclauses):
                     # must_raise contracts do not restrict which exceptions may escape
                     ex.covers.append((short + ":cover:raise-" + e.cls, list(ex.pc)))
                     return
